@@ -153,6 +153,8 @@ func checks() map[string]*Check {
 	// directed choreographies (W2)
 	app := func(id string, rs ...RunSpec) { m[id].Runs = append(m[id].Runs, rs...) }
 	app("C01", RunSpec{Scen: "w2.takeover", Quick: 24, Thorough: 600}, RunSpec{Scen: "w2.figure8", Quick: 16, Thorough: 400}, RunSpec{Scen: "w2.staleinstall", Params: "snapshots=1,snapthr=6,pad=100", Quick: 24, Thorough: 600})
+	app("C01", RunSpec{Scen: "w2.hightermrestart", Quick: 8, Thorough: 200})
+	app("C07", RunSpec{Scen: "w2.hightermrestart", Quick: 8, Thorough: 200})
 	app("C01", RunSpec{Scen: "w2.exacthalf", Quick: 8, Thorough: 200}, RunSpec{Scen: "w1", Params: "hold=1,crash=0,voters=5,steps=40", Quick: 8, Thorough: 400})
 	app("C04", RunSpec{Scen: "w1", Params: "hold=1,crash=0,voters=5,steps=40", Quick: 8, Thorough: 400})
 	app("C08", RunSpec{Scen: "w2.stalereject", Quick: 12, Thorough: 300}, RunSpec{Scen: "w1", Params: "hold=1,crash=1,voters=3,steps=40", Quick: 8, Thorough: 400})
